@@ -1055,3 +1055,8 @@ def run(prog, rep, tier, snap):
     rep.rule("R08.11", "the daemon's wake-up time of an instant agrees with the calendar, all-day instants at the start of their day (value-fixed walk)", 1)
     rep.call(r08_11, prog, rep)
 READY = True
+
+# texts brought up to date with the rules added in the last rounds
+LEVEL_TEXT = LEVEL_TEXT + " Added later, deciding the arithmetic itself for finite sets of arguments by value-fixed walks in the compiler's types: echs_instant_add() over 1 048 additions across year ends and leap days, echs_instant_diff() over every ordered pair of 14 instants, the library's instant -> unix time conversion over 1901..2099 on both sides of 1970 and 2038, unix time -> instant from 1970 on, and the daemon's wake-up time (all-day instants at the start of their day)."
+TECHNIQUE = (TECHNIQUE if isinstance(TECHNIQUE, str) else TECHNIQUE) + '; value-fixed walks (constant propagation over clang CFGs with C-typed arithmetic) of the arithmetic and conversion functions'
+
